@@ -770,11 +770,11 @@ func run(c *engine.Ctx) {
 		case n == 1:
 			return true, true
 		case n == 2 && c.Thorough:
-			return true, true
+			return code == 0 || code == 1 || code == 6 || code == 4 || code == 8, false // pp, fp, pe, ff, ee
 		case n == 2:
 			return code == []int{0, 1, 6}[si%3], false // pp, fp, pe rotating over the trees
 		}
-		return code == (si*7+5)%27, false
+		return code == (si*7+5)%27 && si%2 == 0, false // thorough: every second 3-case tree, one assignment
 	}
 	for n := 1; n <= cliMax && only != "inproc"; n++ {
 		for si, shape := range seqs(n, 0) {
@@ -799,7 +799,7 @@ func run(c *engine.Ctx) {
 						}
 					}
 					for _, f := range all {
-						if f.line > 0 && ((c.Thorough && full) || f.kind(p) == "path:LINE-of-describe") {
+						if f.line > 0 && ((c.Thorough && full && len(p.cases) == 1) || f.kind(p) == "path:LINE-of-describe") {
 							sets = append(sets, []filter{{grep: grepA}, f})
 						}
 					}
@@ -886,7 +886,7 @@ func main() {
 			"(quick: all 3^n for n ≤ 2, 3 per tree for n = 3, 1 per tree for every fourth tree of n = 4; thorough: all for n ≤ 3, 9 per tree for n = 4) × " +
 			"every filter set of size ≤ 2 from {--grep alpha, --grep 'grp.*(beta|four)$', --path file, --path glob, --path other file, --path file:L for every line L of the file and one past its end}, " +
 			"registered and run in-process exactly as cmd/elk does (compiled once per tree and assignment, re-registered and run per filter set); plus the real `elk test` CLI on every tree with ≤ 2 cases (thorough: ≤ 3) × " +
-			"a subset of assignments × {no filter, each single filter, --grep + path:line} (reduced filter lists for the larger trees: a CLI run costs ~1 s CPU); " +
+			"a subset of assignments × {no filter, each single filter, --grep + path:line} (full filter lists for the 1-case trees, reduced lists — --grep, first lines of the describes and of the first case, --grep + describe lines — for the larger trees: a CLI run costs 1–2 s CPU); " +
 			"oracle: independent selector (regex over the names of the enclosing suites and the case; file pattern and line inside the case or on the first line of an enclosing describe), executed multiset == selected set, " +
 			"exit failure ⇔ an executed case failed/errored; non-trivial = a non-empty filter set that selects a proper subset of the cases",
 		Assume: []string{
